@@ -92,27 +92,28 @@ StakeOrdered(R, cands, stake, prev, limit, pct) ==
   \E P \in TopSets(prev \cap cands, Quota(cands, prev, limit, pct), stake) :
      P \subseteq R /\ IsTop(R \ P, cands \ P, stake)
 
-(* results for a family of seeds, Rs[s]: the tied choice is made by the seed alone *)
-TieBySeedOnly(Rs, Seeds, cands, stake, prev, limit, pct) ==
+(* D = the set of results obtained over a family of seeds: the tied choice is made by the seed alone *)
+TieBySeedOnly(D, cands, stake, prev, limit, pct) ==
   \E P \in TopSets(prev \cap cands, Quota(cands, prev, limit, pct), stake) :
-     /\ \A s \in Seeds : P \subseteq Rs[s]
+     /\ \A R \in D : P \subseteq R
      /\ LET U == cands \ P
             y == MaxNodes(cands, limit) - Cardinality(P)
         IN RealTie(U, y, stake) =>
-             \A t \in Tied(U, y, stake) : (\E s \in Seeds : t \in Rs[s]) /\ (\E s \in Seeds : t \notin Rs[s])
+             \A t \in Tied(U, y, stake) : (\E R \in D : t \in R) /\ (\E R \in D : t \notin R)
 
 (* renaming the candidates (same stakes, other ids => another canonical order of the  *)
 (* names): wherever the quota is determined by the stakes, the tied candidates that   *)
-(* get in occupy the same POSITIONS of the tied set's canonical order                 *)
+(* get in occupy the same POSITIONS of the tied set's canonical order, seed by seed.  *)
+(* R1, R2: results per seed (functions over Seeds) under orders ord1, ord2            *)
 QuotaDetermined(cands, stake, prev, limit, pct) ==
   Cardinality(TopSets(prev \cap cands, Quota(cands, prev, limit, pct), stake)) = 1
-TiedPattern(R, cands, stake, prev, limit, pct, ord) ==
-  LET P == CHOOSE Q \in TopSets(prev \cap cands, Quota(cands, prev, limit, pct), stake) : TRUE
-      U == cands \ P
-      y == MaxNodes(cands, limit) - Cardinality(P)
-      s == SeqOf(Tied(U, y, stake), ord)
-  IN {i \in 1..Len(s) : s[i] \in R}
-RelabelInvariant(R1, ord1, R2, ord2, cands, stake, prev, limit, pct) ==
+RelabelInvariant(R1, ord1, R2, ord2, Seeds, cands, stake, prev, limit, pct) ==
   QuotaDetermined(cands, stake, prev, limit, pct) =>
-     TiedPattern(R1, cands, stake, prev, limit, pct, ord1) = TiedPattern(R2, cands, stake, prev, limit, pct, ord2)
+    LET P == CHOOSE Q \in TopSets(prev \cap cands, Quota(cands, prev, limit, pct), stake) : TRUE
+        U == cands \ P
+        y == MaxNodes(cands, limit) - Cardinality(P)
+        T == Tied(U, y, stake)
+        s1 == SeqOf(T, ord1)
+        s2 == SeqOf(T, ord2)
+    IN \A s \in Seeds : {i \in 1..Len(s1) : s1[i] \in R1[s]} = {i \in 1..Len(s2) : s2[i] \in R2[s]}
 =============================================================================
